@@ -27,9 +27,19 @@ BLOCKS = [
     b"* tight one\n* tight two\n\n",
     b"1. first\n2. second\n\n",
     b"* loose one\n\n* loose two\n\n",
+    # MultiMarkdown-only blocks (27..): tables (aligned, ragged), definition list, fence with language, display math, block HTML
+    b"| a | b | c |\n|--:|:-:|:--|\n| d | e | f |\n\n",
+    b"| g | h | i |\n|:-:|\n| j | k | l |\n\n",
+    b"| m | n |\n|---|---|\n| o |\n\n",
+    b"term\n: definition text\n\n",
+    b"```c\nint x = 1 < 2;\n```\n\n",
+    b"\\\\[ x^2 < y \\\\]\n\n",
+    b"<div>\nraw *block*\n</div>\n\n",
 ]
 # blocks that exist only in MultiMarkdown mode
-MMD_ONLY = {19}
+MMD_ONLY = {19, 27, 28, 29, 30, 31, 32}
 INDENTED = {20}
 LISTS = {24, 25, 26}
+TABLES = {27, 28, 29}      # a blank line between two tables starts a new section of ONE table
+DEFLISTS = {30}            # adjacent definition lists are one list; an indented block after one continues the definition
 def is_heading(i): return 10 <= i <= 15
